@@ -280,6 +280,17 @@ def directed_malformed(start_id):
             out.append({"id": k, "channels": 1, "bps": 32, "rate": 44100, "bpscode": "hdr", "selfcheck": False, "class": "minneg-residual",
                         "frames": [{"bs": 8, "subs": [{"type": "fixed", "order": order, "method": 1, "po": 0, "params": [["rice", rice]], "ov": {"minneg": 1}}]}],
                         "pcm": [pcm]})
+    # residuals unrelated to the samples: prediction + residual leaves the 32-bit range again and again
+    MAX = (1 << 31) - 1
+    for ty, order, extra in (("fixed", 1, {}), ("fixed", 2, {}), ("fixed", 4, {}),
+                             ("lpc", 2, {"precision": 15, "shift": 0, "coefs": [16383, 16383]}), ("lpc", 3, {"precision": 12, "shift": 3, "coefs": [2047, -2048, 2047]})):
+        for res in ([MAX], [-MAX], [MAX, MAX, -MAX], [MAX, 0, -MAX, -MAX]):
+            for bps in (32, 24, 16):
+                k += 1
+                sub = dict({"type": ty, "order": order, "method": 1, "po": 0, "params": [["rice", 30]], "ov": {"res": res}}, **extra)
+                edge_s = [(1 << (bps - 1)) - 1, -(1 << (bps - 1))]
+                out.append({"id": k, "channels": 1, "bps": bps, "rate": 44100, "bpscode": "hdr", "selfcheck": False, "class": "pred-overflow",
+                            "frames": [{"bs": 8, "subs": [sub]}], "pcm": [[edge_s[i % 2] for i in range(8)]]})
     lo, hi = -(1 << 32) + 1, (1 << 32) - 1
     edge = [MIN, (1 << 31) - 1]
     for assign in ("ls", "sr", "ms"):
